@@ -1,4 +1,5 @@
 import NetVerif.Proofs.Lemmas.Huffman
+import NetVerif.Proofs.Lemmas.HuffmanAcc
 /-!
 C04 — Huffman coding is a canonical bijection on byte strings.
 
@@ -433,6 +434,71 @@ theorem reject_eos_symbol (s : List Nat) (hs : Bytes s) (rest : List Bool) :
 /-- Full statement (not proved; tied by the differential run): the accumulator model equals the
 bit-level specification for every byte string. -/
 def AppendHuffmanEqEncodeStatement : Prop := ∀ s : List Nat, Bytes s → appendHuffman s = encode s
+
+open NetVerif.Proofs.Lemmas.HuffmanAcc in
+/-- Invariant of the loop of `AppendHuffmanString`: `bits` = all code bits so far = the bits already
+written out (`done`, whole bytes) followed by the `n < 32` pending ones; `x` is the value of all bits
+modulo 2^64 (older bits above the pending ones are never cleared, exactly as in the Go code). -/
+def AccInv (a : Acc) (bits : List Bool) : Prop :=
+  ∃ done pend, bits = done ++ pend ∧ done.length % 8 = 0 ∧ a.out = packBits done ∧
+    a.n = pend.length ∧ a.n < 32 ∧ a.x = bitsToNat bits % 2 ^ 64
+
+theorem accInv_init : AccInv { x := 0, n := 0, out := [] } [] :=
+  ⟨[], [], rfl, rfl, rfl, rfl, by decide, by simp [bitsToNat]⟩
+
+open NetVerif.Proofs.Lemmas.HuffmanAcc in
+theorem accInv_step (a : Acc) (bits : List Bool) (c : Nat) (hc : c < 256) (h : AccInv a bits) :
+    AccInv (accStep a c) (bits ++ symBits c) := by
+  obtain ⟨done, pend, hb, hd, hout, hn, hn32, hx⟩ := h
+  obtain ⟨hcode, hl5, hl30⟩ := code_lt c hc
+  have hL64 : lenOf c % 64 = lenOf c := Nat.mod_eq_of_lt (by omega)
+  have hsb : bitsToNat (symBits c) = codeOf c := by
+    rw [symBits, bitsToNat_natToBits, Nat.mod_eq_of_lt hcode]
+  have hx' : ((a.x <<< (lenOf c % 64)) % 2 ^ 64) ||| codeOf c = bitsToNat (bits ++ symBits c) % 2 ^ 64 := by
+    rw [hL64, hx, step_x _ _ _ (by omega) hcode, bitsToNat_append, symBits_length, hsb]
+  simp only [accStep]
+  by_cases hge : a.n + lenOf c ≥ 32
+  · simp only [hge, ↓reduceIte]
+    have hplen : (pend ++ symBits c).length = a.n + lenOf c := by simp [hn]
+    have hwlen : ((pend ++ symBits c).take 32).length = 32 := by
+      rw [List.length_take, hplen]; omega
+    have hrlen : ((pend ++ symBits c).drop 32).length = (a.n + lenOf c) % 32 := by
+      rw [List.length_drop, hplen]; omega
+    refine ⟨done ++ (pend ++ symBits c).take 32, (pend ++ symBits c).drop 32, ?_, ?_, ?_, ?_, ?_, ?_⟩
+    · rw [hb, List.append_assoc, List.append_assoc, List.take_append_drop]
+    · rw [List.length_append, hwlen]; omega
+    · simp only
+      rw [packBits_append _ _ hd, ← hout, packBits_eq_beBytes 4 _ (by rw [hwlen])]
+      congr 2
+      rw [hx']
+      have hbits : bits ++ symBits c =
+          (done ++ (pend ++ symBits c).take 32) ++ (pend ++ symBits c).drop 32 := by
+        rw [hb, List.append_assoc, List.append_assoc, List.take_append_drop]
+      rw [hbits, bitsToNat_append, bitsToNat_append, hwlen, hrlen]
+      have hW := bitsToNat_lt ((pend ++ symBits c).take 32)
+      have hR := bitsToNat_lt ((pend ++ symBits c).drop 32)
+      rw [hwlen] at hW
+      rw [hrlen] at hR
+      exact extract32 _ _ _ _ (by omega) hW hR
+    · simp only; rw [hrlen]
+    · simp only; omega
+    · simp only; exact hx'
+  · simp only [hge, ↓reduceIte]
+    refine ⟨done, pend ++ symBits c, ?_, hd, hout, ?_, ?_, hx'⟩
+    · rw [hb, List.append_assoc]
+    · simp [hn]
+    · simp only; omega
+
+theorem accInv_foldl (s : List Nat) (hs : Bytes s) : ∀ (a : Acc) (bits : List Bool), AccInv a bits →
+    AccInv (s.foldl accStep a) (bits ++ encodeBits s) := by
+  induction s with
+  | nil => intro a bits h; simpa [encodeBits] using h
+  | cons c s ih =>
+    intro a bits h
+    have hc : c < 256 := hs c (by simp)
+    have hs' : Bytes s := fun b hb => hs b (by simp [hb])
+    have := ih hs' _ _ (accInv_step a bits c hc h)
+    simpa [encodeBits, List.append_assoc] using this
 
 /-- The part proved: the empty string and every one-byte string (covers every table entry once,
 including the 1–4 trailing-byte cases of the final `switch`). -/
